@@ -138,6 +138,8 @@ def table(I):
                 return SIntStr(x)
             if is_symbolic(x):
                 raise Unsupported('str() of %s' % type(x).__name__)
+            if hasattr(x, '__sym_str__'):
+                return x.__sym_str__()
             if I.is_repo_object(x) and not isinstance(x, type):
                 for name in ('__str__', '__repr__'):
                     from .interp import _mro_lookup, in_repo_scope
@@ -192,6 +194,7 @@ def table(I):
     reg(print, m_print)
 
     def m_range(*a):
+        a = tuple(_concretize_int(x) for x in a)
         if any(is_symbolic(x) for x in a):
             raise Unsupported('range over a symbolic bound (needs a loop contract)')
         return range(*a)
@@ -296,6 +299,17 @@ def table(I):
     return _Table(T, I)
 
 
+def _concretize_int(x):
+    if isinstance(x, SInt):
+        t = z3.simplify(x.t)
+        if z3.is_bv_value(t):
+            n = t.as_long()
+            return n - (1 << W) if n >= 1 << (W - 1) else n
+        if z3.is_int_value(t):
+            return t.as_long()
+    return x
+
+
 def _b2i(x, mode):
     one, zero = (z3.BitVecVal(1, W), z3.BitVecVal(0, W)) if mode == 'bv' else (z3.IntVal(1), z3.IntVal(0))
     return SInt(z3.If(x.t, one, zero), 0, 1)
@@ -334,18 +348,20 @@ def _parse_fmt(fmt):
     if not isinstance(fmt, str):
         raise Unsupported('struct format of type %s' % type(fmt).__name__)
     f = fmt
+    little = False
     if f and f[0] in '<>!=@':
-        if f[0] == '<':
-            raise Unsupported('little-endian struct format')
+        little = f[0] in '<=@'          # native order on the supported platforms is little-endian
         f = f[1:]
+    else:
+        little = True                   # no prefix: native order (only matters for multi-byte codes)
     if f in _INT_CODES:
-        return ('int',) + _INT_CODES[f]
+        return ('int',) + _INT_CODES[f] + (little,)
     if f == '?':
         return ('bool',)
     if f == 'f':
-        return ('float', 4)
+        return ('float', 4, little)
     if f == 'd':
-        return ('float', 8)
+        return ('float', 8, little)
     if f.endswith('s') and f[:-1].isdigit():
         return ('Ns', int(f[:-1]))
     if f == 's':
@@ -363,7 +379,7 @@ def struct_pack(I, fmt, vals):
         raise struct.error('pack expected 1 items for packing (got %d)' % len(vals))
     v = vals[0]
     if p[0] == 'int':
-        _, n, signed = p
+        _, n, signed, little = p
         if isinstance(v, SBool):
             v = _b2i(v, E.int_mode)
         if isinstance(v, SReal):
@@ -373,7 +389,8 @@ def struct_pack(I, fmt, vals):
         lo, hi = (-(1 << (8 * n - 1)), (1 << (8 * n - 1)) - 1) if signed else (0, (1 << (8 * n)) - 1)
         if not I.truth(And(v >= lo, v <= hi)):
             raise struct.error('argument out of range')
-        return SBytes(int_bytes(v, n))
+        bs = int_bytes(v, n)
+        return SBytes(bs[::-1] if little and n > 1 else bs)
     if p[0] == 'bool':
         t = term_bool(v) if isinstance(v, (SBool, bool)) else term_bool(v != 0) if isinstance(v, (SInt, SReal)) else None
         if t is None:
@@ -385,7 +402,8 @@ def struct_pack(I, fmt, vals):
             raise Unsupported('struct.pack of an opaque float')
         r = to_real(v)
         bits = (pack_f32 if n == 4 else pack_f64)(r.t)
-        return SBytes([('byte', z3.Extract(8 * (n - i) - 1, 8 * (n - i - 1), bits)) for i in range(n)])
+        bs = [('byte', z3.Extract(8 * (n - i) - 1, 8 * (n - i - 1), bits)) for i in range(n)]
+        return SBytes(bs[::-1] if p[2] else bs)
     if p[0] == 'Ns':
         n = p[1]
         data = SBytes.of(v)
@@ -422,7 +440,10 @@ def int_bytes(v, n):
 def bytes_int(terms, signed, mode):
     """Integer value of big-endian byte terms."""
     n = len(terms)
-    cat = terms[0] if n == 1 else z3.Concat(*terms)
+    cat = z3.simplify(terms[0] if n == 1 else z3.Concat(*terms))
+    if z3.is_bv_value(cat):
+        v = cat.as_long()
+        return v - (1 << (8 * n)) if signed and v >= 1 << (8 * n - 1) else v
     if mode == 'bv':
         ext = (z3.SignExt if signed else z3.ZeroExt)(W - 8 * n, cat)
         lo, hi = (-(1 << (8 * n - 1)), (1 << (8 * n - 1)) - 1) if signed else (0, (1 << (8 * n)) - 1)
@@ -463,11 +484,15 @@ def struct_unpack(I, fmt, data):
     if terms is None:
         raise Unsupported('struct.unpack of a fixed-size value from an opaque blob')
     if p[0] == 'int':
+        if p[3] and p[1] > 1:
+            terms = terms[::-1]
         return (bytes_int(terms, p[2], E.int_mode),)
     if p[0] == 'bool':
         return (mk_bool(terms[0] != z3.BitVecVal(0, 8)),)
     if p[0] == 'float':
         n = p[1]
+        if p[2]:
+            terms = terms[::-1]
         cat = z3.Concat(*terms)
         return (SReal((unpack_f32 if n == 4 else unpack_f64)(cat)),)
     raise Unsupported('struct.unpack %r' % (p,))
